@@ -180,6 +180,16 @@ def judgeLine (ws : List String) : String :=
     | some po, some ex, some seen => verdict (supOk po ex seen) "supervision"
     | _, _, _ => "bad-op"
   | ["stuck", _] => "reject stuck"
+  | ["abort"] => "reject abort"          -- the process running the scenario was aborted
+  | ["hang"] => "reject hang"
+  | "panic" :: _ => "reject panic"
+  | ["overlap", a, b, c, d, e] =>
+    -- second spawn under a name still being started: refused / name hidden while starting / visible once
+    -- started / resolves to the first actor / free after both are gone (`at_most_one_actor_per_name`,
+    -- `lookup_iff_activated`, `name_free_after_drop`)
+    if [a, b, c, d, e].all (fun f => f = "0" || f = "1") then
+      verdict ([a, b, c, d, e].all (· = "1")) "overlapping-spawn"
+    else "bad-op"
   | "names" :: ivs =>
     match allSome (ivs.map parseIv) with
     | some l => verdict (disjoint l) "name-overlap"
